@@ -111,6 +111,19 @@ def stepC28 (d : DS) (toks : List String) : DS × String :=
         if key ∈ d.renewed then ({ d with q := .renew k 0 am nl bo :: d.q }, "accept")
         else ({ d with q := .renew k ol am nl bo :: d.q, renewed := key :: d.renewed }, "accept")
     | _, _, _, _, _ => (d, "bad-op")
+  | ["vote", k, lock, vs, bad, shape] =>
+    -- Voting.Validate: a vote type may appear once; invalid candidate votes (<= 0) are refused there too
+    match parseTx ["vote", k, lock, vs, bad] with
+    | some tx =>
+      let nD := (shape.toList.filter (· == 'D')).length
+      let nP := (shape.toList.filter (· == 'P')).length
+      let zero := match tx with | .vote _ _ vs _ => vs.any (· ≤ 0) | _ => false
+      if zero then (d, "reject zero") else
+      if nD > 1 ∨ nP > 1 then (d, "reject dup") else
+      (match check d.P d.h d.s tx with
+       | some e => (d, "reject " ++ e)
+       | none => ({ d with q := tx :: d.q }, "accept"))
+    | none => (d, "bad-op")
   | _ =>
     match parseCR toks with
     | some ctx =>
